@@ -81,7 +81,9 @@ func compilePkgSFiles(ctx *context, aPkg *aPackage, pkg *packages.Package, verbo
 		if pkg.PkgPath != "runtime" {
 			ctx.cTransformer.TransformModule(pkg.PkgPath, mod)
 		}
-		ll := mod.String()
+		// The translator parses its IR from a randomly named temporary file; without a
+		// stable name the object's STT_FILE symbol differs from build to build.
+		ll := stableModuleHeader(mod.String(), pkg.PkgPath+"/"+filepath.Base(sfile))
 		mod.Dispose()
 
 		baseName := aPkg.ExportFile + filepath.Base(sfile) // used for stable debug output paths
@@ -134,6 +136,21 @@ func compilePkgSFiles(ctx *context, aPkg *aPackage, pkg *packages.Package, verbo
 	}
 
 	return objFiles, nil
+}
+
+// stableModuleHeader replaces the module identifier and source_filename of
+// textual IR (its first two lines) with a name that does not change between builds.
+func stableModuleHeader(ll, name string) string {
+	lines := strings.SplitN(ll, "\n", 3)
+	for i := 0; i < len(lines) && i < 2; i++ {
+		switch {
+		case strings.HasPrefix(lines[i], "; ModuleID = "):
+			lines[i] = "; ModuleID = '" + name + "'"
+		case strings.HasPrefix(lines[i], "source_filename = "):
+			lines[i] = "source_filename = \"" + name + "\""
+		}
+	}
+	return strings.Join(lines, "\n")
 }
 
 func shouldCheckDarwinDynimportTrampolineAsm(ctx *context, pkg *packages.Package) bool {
